@@ -7,6 +7,7 @@ import (
 	"go/ast"
 	"go/token"
 	"go/types"
+	"regexp"
 	"sort"
 	"strings"
 )
@@ -730,8 +731,20 @@ func (e *Engine) mapsOnlyCall(st *State, name string, sig *types.Signature, call
 	if e.frame != nil && !e.frame.all {
 		e.oblige(st, "frame", "call of "+shortName(name)+" (dbonly: may modify any bucket or map) stays within the modifies frame", tFalse, call.Pos(), nil)
 	}
+	oldMapV, hadMapV := st.ghost["MapV"]
 	for _, k := range sortedTKeys(st.ghost) {
 		st.ghost[k] = e.fresh("g_"+k+"_dbonly", st.ghost[k].sort)
+	}
+	if hadMapV {
+		// a tally ghost (gmap("tally...")) counts calls of the contract that names it and is written by no code; the
+		// callees listed under dbonly are assumed not to reach that function (part of the dbonly assumption)
+		for _, tn := range e.prog.tallyMaps() {
+			gname := "gm_" + sanitize(tn)
+			e.declareUF(gname, fmt.Sprintf("(declare-fun %s () Int)", gname))
+			e.ghostMapAxiom(gname, 0)
+			ref := T{gname, SInt}
+			e.assume(st, Eq(Sel(st.ghost["MapV"], ref), Sel(oldMapV, ref)), "tally ghost kept by a dbonly call")
+		}
 	}
 	na := e.fresh("alloc_call", SInt)
 	e.assume(st, Ge(na, st.alloc), "allocation pointer is monotone")
@@ -744,6 +757,41 @@ func (e *Engine) mapsOnlyCall(st *State, name string, sig *types.Signature, call
 		return vals[0]
 	}
 	return vals
+}
+
+var tallyRe = regexp.MustCompile(`"(tally[A-Za-z0-9_]*)"`)
+
+// tallyMaps: the names of the tally ghost maps mentioned in any contract clause of the program.
+func (p *Program) tallyMaps() []string {
+	if p.tallies != nil {
+		return *p.tallies
+	}
+	seen := map[string]bool{}
+	var out []string
+	add := func(text string) {
+		for _, m := range tallyRe.FindAllStringSubmatch(text, -1) {
+			if !seen[m[1]] {
+				seen[m[1]] = true
+				out = append(out, m[1])
+			}
+		}
+	}
+	for _, fc := range p.contracts {
+		for _, c := range fc.ensures {
+			add(c.text)
+		}
+		for _, c := range fc.requires {
+			add(c.text)
+		}
+		for _, as := range fc.asserts {
+			for _, a := range as {
+				add(a.text)
+			}
+		}
+	}
+	sort.Strings(out)
+	p.tallies = &out
+	return out
 }
 
 func shortName(full string) string {
